@@ -30,11 +30,11 @@ FLOORS = {
               'must_keep_pixels': 2500000, 'limited_map_checks': 160, 'limited_tile_checks': 120, 'featureinfo_inside': 50,
               'featureinfo_outside': 90, 'featureinfo_denied': 100, 'svc_wms_map': 330, 'svc_wms_fi': 140,
               'family_tms': 130, 'family_wmts': 85, 'family_kml': 90, 'svc_wmts_fi_kvp': 45, 'svc_wmts_fi_rest': 40},
-    'thorough': {'scenarios': 3000, 'requests': 24000, 'denied_checks': 10000, 'no_upstream_for_denied_checks': 10000,
-                 'denied_layer_pixel_checks': 800, 'rejected_as_expected': 6000, 'must_be_clear_pixels': 180000000,
-                 'must_keep_pixels': 60000000, 'limited_map_checks': 4000, 'limited_tile_checks': 3000,
-                 'featureinfo_inside': 1200, 'featureinfo_outside': 2200, 'featureinfo_denied': 2500, 'svc_wms_map': 8000,
-                 'svc_wms_fi': 3500, 'family_tms': 3000, 'family_wmts': 2000, 'family_kml': 2000, 'svc_wmts_fi_kvp': 1000,
+    'thorough': {'scenarios': 2600, 'requests': 21000, 'denied_checks': 9500, 'no_upstream_for_denied_checks': 9500,
+                 'denied_layer_pixel_checks': 780, 'rejected_as_expected': 6000, 'must_be_clear_pixels': 160000000,
+                 'must_keep_pixels': 54000000, 'limited_map_checks': 3500, 'limited_tile_checks': 2800,
+                 'featureinfo_inside': 1200, 'featureinfo_outside': 2200, 'featureinfo_denied': 2500, 'svc_wms_map': 7500,
+                 'svc_wms_fi': 3300, 'family_tms': 3000, 'family_wmts': 2000, 'family_kml': 2000, 'svc_wmts_fi_kvp': 1000,
                  'svc_wmts_fi_rest': 1000}}
 RULE = ("case = one generated scenario (layer tree shape flat / group / nested / group with own sources / nested group with own "
         "sources; per leaf: cascaded WMS with supported_srs, png cache or jpeg cache on a 3857 / 4326 / 25832 grid with origin "
